@@ -103,7 +103,9 @@ ObsStep(e) ==
 
 NoBad(id) == id \notin bad
 C01 == NoBad("C01")
-C11 == NoBad("C11")
+\* C11: step checks, plus: once the channel is closed (explicitly or by the last handle of a side)
+\* every pending future has been woken
+C11 == NoBad("C11") /\ (oClosedEv => \A f \in OPending : oWoken[f])
 \* C12: step checks, plus: every receiver pending at the send / close has been woken
 C12 == NoBad("C12") /\ (oFul => \A f \in OPending : oWoken[f])
 C17 == NoBad("C17")
